@@ -28,28 +28,28 @@ CONSTANTS
 
 \* token atoms: parser-level type, and layout class (multi-line lexemes end on the next line)
 Ty(a) ==
-    CASE a \in {"STRING", "STRING_ML", "STRING_Q", "STRING_TAB", "STRING_NP", "STRING_U"} -> "STRING"
+    CASE a \in {"STRING", "STRING_ML", "STRING_Q", "STRING_TAB", "STRING_NP", "STRING_U", "STRING_QU", "STRING_MLU"} -> "STRING"
       [] a \in {"REGEX", "REGEX_SL"} -> "REGEX"
       [] a \in {"BLOCK_COMMENT", "BLOCK_COMMENT_ML"} -> "BLOCK_COMMENT"
-      [] a \in {"DESCRIPTION", "DESCRIPTION_LONG"} -> "DESCRIPTION"
+      [] a \in {"DESCRIPTION", "DESCRIPTION_LONG", "DESCRIPTION_EMPTY"} -> "DESCRIPTION"
       [] OTHER -> a
-AllAtoms == {"IDENT", "BOOL", "STRING", "STRING_ML", "STRING_Q", "STRING_TAB", "STRING_NP", "STRING_U", "REGEX", "REGEX_SL",
-             "INT", "DECIMAL", "COMMENT", "BLOCK_COMMENT", "BLOCK_COMMENT_ML", "DESCRIPTION", "DESCRIPTION_LONG", "EOL",
+AllAtoms == {"IDENT", "BOOL", "STRING", "STRING_ML", "STRING_Q", "STRING_TAB", "STRING_NP", "STRING_U", "STRING_QU", "STRING_MLU", "REGEX", "REGEX_SL",
+             "INT", "DECIMAL", "COMMENT", "BLOCK_COMMENT", "BLOCK_COMMENT_ML", "DESCRIPTION", "DESCRIPTION_LONG", "DESCRIPTION_EMPTY", "EOL",
              "=", "{", "}", "[", "]", ".", ",", ":", "+", "!", "?"}
 Literals == {"IDENT", "STRING", "REGEX", "INT", "DECIMAL", "BOOL", "COMMENT", "BLOCK_COMMENT", "DESCRIPTION"}   \* TokenType.IsLiteral
 TagStart == {"IDENT", "STRING", "REGEX", "!", "?", "BOOL"}                                                  \* CanStartTag
 
 \* lexeme shape in the canonical text: runes on the first line, multi-line?, runes on the last line
 Shape(a) ==
-    CASE a \in {"IDENT", "INT", "=", "{", "}", "[", "]", ".", ",", ":", "+", "!", "?"} -> [w |-> 1, ml |-> FALSE, w2 |-> 0]
+    CASE a \in {"IDENT", "INT", "=", "{", "}", "[", "]", ".", ",", ":", "+", "!", "?", "DESCRIPTION_EMPTY"} -> [w |-> 1, ml |-> FALSE, w2 |-> 0]
       [] a = "BOOL" -> [w |-> 4, ml |-> FALSE, w2 |-> 0]
       [] a \in {"STRING", "STRING_U", "REGEX", "DECIMAL", "COMMENT", "DESCRIPTION"} -> [w |-> 3, ml |-> FALSE, w2 |-> 0]
       [] a \in {"STRING_TAB", "STRING_NP"} -> [w |-> 4, ml |-> FALSE, w2 |-> 0]     \* "s<tab>" / "s<nbsp>"
-      [] a = "STRING_Q" -> [w |-> 7, ml |-> FALSE, w2 |-> 0]                          \* "s\"\\"  (escaped quote and backslash)
+      [] a \in {"STRING_Q", "STRING_QU"} -> [w |-> 7, ml |-> FALSE, w2 |-> 0]          \* "s\"\\" (escaped quote and backslash; QU: s is non-ASCII)
       [] a = "REGEX_SL" -> [w |-> 6, ml |-> FALSE, w2 |-> 0]                          \* /r//s/   (escaped slash)
       [] a = "BLOCK_COMMENT" -> [w |-> 5, ml |-> FALSE, w2 |-> 0]                     \* /*c*/
       [] a = "BLOCK_COMMENT_ML" -> [w |-> 3, ml |-> TRUE, w2 |-> 3]                   \* /*c<nl>d*/
-      [] a = "STRING_ML" -> [w |-> 3, ml |-> TRUE, w2 |-> 2]                          \* "s\<nl>t"
+      [] a \in {"STRING_ML", "STRING_MLU"} -> [w |-> 3, ml |-> TRUE, w2 |-> 2]          \* "s\<nl>t" (MLU: s, t non-ASCII)
       [] a = "DESCRIPTION_LONG" -> [w |-> 100, ml |-> FALSE, w2 |-> 0]                 \* | nine ten-letter words: re-flowed by Fmt
       [] OTHER -> [w |-> 1, ml |-> FALSE, w2 |-> 0]                                   \* EOL
 
